@@ -621,3 +621,16 @@ for _w in range(3):
         body_generic_tuple_order(_w, 1, 2)
     except Exception:
         pass
+
+
+@obligation(pre="0 <= first <= 5 and 0 <= second <= 5 and first != second", witnesses=(0,), timeout=240)
+def body_generic_history(first: int, second: int) -> int:
+    """a subscripted generic gets the type argument it was subscripted with -- also after an equal-comparing argument (a union nested in list[...] / dict[...] in the other member order) was subscripted before"""
+    from props import shared as _sh
+    a = b = 0
+    for k in range(6):
+        if first == k:
+            a = k
+        if second == k:
+            b = k
+    return _sh.check_generic_history(a, b)
